@@ -553,4 +553,164 @@ theorem inverse_skip_irrel (es : TopoEs) (outer : Path) (ukvs : KVs) (inv : Val)
     funext inv'
     exact ih inv' h'
 
+/-! ### glue for the main induction -/
+
+theorem view_ok_find (t : Tree) (s : Schema) (topo : TopoEs) (pos : Path) (V : View)
+    (h : view t s topo pos = .ok V) : (t.find pos).isSome := by
+  unfold view at h
+  cases hf : t.find pos with
+  | none => simp [hf] at h
+  | some n => simp
+
+theorem mem_unique {α} {l : List (String × α)} (hnd : (AL.keys l).Nodup) {k : String} {a b : α}
+    (ha : (k, a) ∈ l) (hb : (k, b) ∈ l) : a = b := by
+  induction l with
+  | nil => cases ha
+  | cons hd tl ih =>
+    obtain ⟨k0, x0⟩ := hd
+    simp only [AL.keys, List.map_cons, List.nodup_cons] at hnd
+    rcases List.mem_cons.mp ha with e1 | e1 <;> rcases List.mem_cons.mp hb with e2 | e2
+    · injection e1 with _ h1; injection e2 with _ h2; rw [h1, h2]
+    · injection e1 with h1 _; subst h1
+      exact absurd (mem_keys_of_mem e2) hnd.1
+    · injection e2 with h2 _; subst h2
+      exact absurd (mem_keys_of_mem e1) hnd.1
+    · exact ih hnd.2 e1 e2
+
+theorem keysOK_nodup {es : SchemaEs} (h : keysOK es = true) : (AL.keys es).Nodup := by
+  simp only [keysOK, Bool.and_eq_true, decide_eq_true_eq] at h; exact h.1
+
+theorem popPath_some {pes pes' : TopoEs} {p : Path} (h : popPath pes = .ok (some p, pes')) :
+    pes' = AL.erase "_path" pes := by
+  unfold popPath at h
+  cases hg : AL.get "_path" pes with
+  | none => simp [hg] at h
+  | some x => cases x with
+    | path q => simp [hg] at h; exact h.2.symm
+    | dict d => simp [hg] at h
+
+theorem popPath_none {pes pes' : TopoEs} (h : popPath pes = .ok (Option.none, pes')) :
+    pes' = pes ∧ "_path" ∉ AL.keys pes := by
+  unfold popPath at h
+  cases hg : AL.get "_path" pes with
+  | none =>
+    simp [hg] at h
+    refine ⟨h.symm, fun hm => ?_⟩
+    have : ∀ (l : TopoEs), "_path" ∈ AL.keys l → AL.get "_path" l ≠ Option.none := by
+      intro l
+      induction l with
+      | nil => intro h; simp [AL.keys] at h
+      | cons hd tl ih =>
+        obtain ⟨k0, x0⟩ := hd
+        intro h
+        by_cases h0 : k0 = "_path"
+        · simp [AL.get, h0]
+        · simp only [AL.get, h0, if_false]
+          apply ih
+          simp [AL.keys] at h ⊢
+          rcases h with h | h
+          · exact absurd h.symm h0
+          · exact h
+    exact this pes hm hg
+  | some x => cases x with
+    | path q => simp [hg] at h
+    | dict d => simp [hg] at h
+
+theorem not_mem_keys_erase (pes : TopoEs) : "_path" ∉ AL.keys (AL.erase "_path" pes) := by
+  simp [AL.keys, AL.erase]
+
+theorem get_erase_other {k : String} (hk : k ≠ "_path") (pes : TopoEs) :
+    AL.get k (AL.erase "_path" pes) = AL.get k pes := by
+  induction pes with
+  | nil => rfl
+  | cons hd tl ih =>
+    obtain ⟨k0, x0⟩ := hd
+    by_cases h0 : k0 = "_path"
+    · subst h0
+      have : ¬ ("_path" = k) := fun e => hk e.symm
+      simp [AL.erase, AL.get, this] at ih ⊢; exact ih
+    · have hb : (k0 != "_path") = true := by simp [h0]
+      have he : AL.erase "_path" ((k0, x0) :: tl) = (k0, x0) :: AL.erase "_path" tl := by
+        simp [AL.erase, List.filter, hb]
+      rw [he]
+      by_cases h1 : k0 = k
+      · simp [AL.get, h1]
+      · simp [AL.get, h1, ih]
+
+theorem defaultKeys_erase (pes : TopoEs) (value : Val) :
+    defaultKeys (AL.erase "_path" pes) value = defaultKeys pes value := by
+  unfold defaultKeys
+  cases value <;> try rfl
+  rename_i vkvs
+  have hs : AL.has "*" (AL.erase "_path" pes) = AL.has "*" pes := by
+    simp [AL.has, get_erase_other (k := "*") (by decide)]
+  simp only [hs]
+  have hf : List.filter (fun k => !AL.has k (AL.erase "_path" pes) && k != "_path") (KV.keys vkvs) =
+      List.filter (fun k => !AL.has k pes && k != "_path") (KV.keys vkvs) := by
+    apply List.filter_congr
+    intro k _
+    by_cases hk : k = "_path"
+    · simp [hk]
+    · simp [AL.has, get_erase_other hk]
+  rw [hf]
+
+theorem invDefaults_erase (pes : TopoEs) (inner : Path) (value inv : Val) :
+    invDefaults (AL.erase "_path" pes) inner value inv = invDefaults pes inner value inv := by
+  unfold invDefaults; rw [defaultKeys_erase]
+
+theorem invDefaults_in (es : TopoEs) (inner : Path) (k : String) (x inv : Val)
+    (h : AL.has k es = true ∨ AL.has "*" es = true) :
+    invDefaults es inner (.dict [(k, x)]) inv = .ok inv := by
+  unfold invDefaults defaultKeys
+  rcases h with h | h
+  · by_cases hs : AL.has "*" es = true
+    · simp [hs]; rfl
+    · simp [hs, KV.keys, h]; rfl
+  · simp [h]; rfl
+
+theorem invDefaults_out (es : TopoEs) (inner : Path) (k : String) (x inv : Val)
+    (h1 : AL.has "*" es = false) (h2 : AL.has k es = false) (h3 : k ≠ "_path") :
+    invDefaults es inner (.dict [(k, x)]) inv = invTuple inner [k] x inv := by
+  unfold invDefaults defaultKeys
+  simp [h1, h2, h3, KV.keys, KV.lookup, List.foldlM]
+
+/-- what one dictionary level of `inverse_topology` makes of an update, starting from `{}` -/
+def levelInverse (topo : TopoEs) (dflt : Bool) (pos : Path) (value : Val) : Except Err Val :=
+  match inverse topo false pos value (.dict []) with
+  | .error e => .error e
+  | .ok inv' => if dflt then invDefaults topo pos value inv' else .ok inv'
+
+theorem levelInverse_pathdict {pes pes' : TopoEs} {p : Path} (hp : popPath pes = .ok (some p, pes'))
+    (inner : Path) (vk : KVs) :
+    (inverse pes true inner (.dict vk) (.dict [])).bind (invDefaults pes inner (.dict vk)) =
+      levelInverse pes' true inner (.dict vk) := by
+  have he := popPath_some hp
+  subst he
+  unfold levelInverse
+  rw [inverse_erase_path, inverse_skip_irrel _ _ _ _ (not_mem_keys_erase pes)]
+  cases inverse (AL.erase "_path" pes) false inner (.dict vk) (.dict []) with
+  | error e => rfl
+  | ok inv' => simp [Except.bind, invDefaults_erase]
+
+theorem levelInverse_false (topo : TopoEs) (pos : Path) (value : Val) :
+    levelInverse topo false pos value = inverse topo false pos value (.dict []) := by
+  unfold levelInverse
+  cases inverse topo false pos value (.dict []) <;> simp
+
+/-- `v` is a declared variable of the schema: it ends at a variable; below a glob port the next
+element is the name of a child -/
+inductive VarPath : Schema → Path → Prop
+  | leaf (cfg : KVs) : VarPath (.leaf cfg) []
+  | port {o : Bool} {es : SchemaEs} {k : String} {sub : Schema} {rest : Path} :
+      (k, sub) ∈ es → k ≠ "*" → VarPath sub rest → VarPath (.dict o es) (k :: rest)
+  | glob {o : Bool} {es : SchemaEs} {c : String} {sub : Schema} {rest : Path} :
+      ("*", sub) ∈ es → VarPath sub rest → VarPath (.dict o es) (c :: rest)
+
+/-- port / child names that are not path syntax -/
+def GoodPath (v : Path) : Prop := ∀ x ∈ v, x ≠ ".." ∧ x ≠ "_path"
+
+theorem VarPath.dict_ne_nil {o : Bool} {es : SchemaEs} {rest : Path} (h : VarPath (.dict o es) rest) :
+    rest ≠ [] := by
+  cases h <;> simp
+
 end Viv
